@@ -208,7 +208,7 @@ REGISTRY["C11"] = {
     "pkg": "props/c11",
     "level": "exploration",
     "level_text": ("rapid-drawn processes with 1..3 intermediate catch events (signal, message with and without operationRef; shared references allowed) in "
-                   "sequence, in parallel branches, or on exclusive branches of which only one is taken, optionally behind a task; scripts of up to 12 stimuli "
+                   "sequence, in parallel branches, on exclusive branches of which only one is taken, or inside 1..2 nested embedded sub-processes sitting in parallel branches, optionally behind a task; scripts of up to 12 stimuli "
                    "mixing task answers, matching / non-matching / wrong-kind / wrong-operation events (up to 8, more than any node inbox holds) and bursts of two "
                    "concurrent events. After every stimulus: quiescence; every ConsumeEvent call must have returned (parked at the fixpoint = blocks forever); the "
                    "new task requests must be exactly those of the listeners the model releases (each waiting token once per delivered event, nothing for "
